@@ -395,29 +395,47 @@ func (c *client) waitForCompletion(ctx context.Context, rc hrpc.RegionClient,
 	ok = true
 	canceledIndex := len(rpcs)
 
+	handleResult := func(rpc hrpc.Call, res hrpc.RPCResult) {
+		results[rpcToRes[rpc]] = res
+		if res.Error != nil {
+			c.handleResultError(res.Error, rpc.Region(), rc)
+			ok = false
+			switch res.Error.(type) {
+			case region.RetryableError:
+				shouldBackoff = true
+				retryables = append(retryables, rpc)
+			case region.ServerError, region.NotServingRegionError:
+				retryables = append(retryables, rpc)
+			default:
+				unretryableError = true
+			}
+		}
+	}
+
 loop:
 	for i, rpc := range rpcs {
 		select {
 		case res := <-rpc.ResultChan():
-			results[rpcToRes[rpc]] = res
-			if res.Error != nil {
-				c.handleResultError(res.Error, rpc.Region(), rc)
-				ok = false
-				switch res.Error.(type) {
-				case region.RetryableError:
-					shouldBackoff = true
-					retryables = append(retryables, rpc)
-				case region.ServerError, region.NotServingRegionError:
-					retryables = append(retryables, rpc)
-				default:
-					unretryableError = true
-				}
-			}
+			handleResult(rpc, res)
 
 		case <-ctx.Done():
 			canceledIndex = i
 			ok = false
 			break loop
+
+		case <-rpc.Context().Done():
+			// The call's own context has ended. The region client drops
+			// such a call without completing it, so waiting for a result
+			// could block forever. Take a result if there is one,
+			// otherwise fail the call with its context error.
+			select {
+			case res := <-rpc.ResultChan():
+				handleResult(rpc, res)
+			default:
+				results[rpcToRes[rpc]].Error = rpc.Context().Err()
+				ok = false
+				unretryableError = true
+			}
 		}
 	}
 
